@@ -47,8 +47,20 @@ RULE = ("metamorphic, implementation only: base input + 2-3 twins (relabelled to
 EXHAUSTIVE = {"quick": "", "thorough": ""}
 TRUSTED = ["(R)/(M) as in C03-C07, C11-C14, C18, C19: C15 runs no reference decider; it compares the implementation "
            "with itself on equivalent inputs and validates witnesses with the verified checkers of those properties",
-           "k_alt_partition_approx is neither an exact decider nor an optimiser: not compared (its validity is C18)"]
-ASSUMPTIONS = ["relabellings are injective maps to positive integers (is_one_euclidean: permutations of 1..m)",
+           "k_alt_partition_approx is neither an exact decider nor an optimiser: not compared (its validity is C18)",
+           "mirrored algorithms whose invariance is a THEOREM of Properties/C15.v (the implementation is tied to them by the "
+           "correspondences of C03/C04/C12/C13/C18/C19, not by C15): is_single_peaked (elo_verdict_*), is_single_crossing "
+           "(sc_algo_verdict_*), is_single_peaked_on_tree (trick_verdict_invariant), k_alternative_deletion "
+           "(elp_optimum_*), k_alternative_partition_brut_force (bf_algo_size_*), is_one_euclidean (eucl_algo_verdict_*: "
+           "for every LP oracle that is sound and complete - the exact-LP hypothesis of eucl_algo_sound / "
+           "eucl_algo_complete; eucl_algo_exact_verdict_perm for the extracted Fourier-Motzkin oracle without it); the "
+           "real LP is CBC / python-mip in floating point: trusted, observed by the correspondence only",
+           "is_part / is_2_part: partitions are compared as SETS OF SETS (is_part_relabel, is_part_reorder); the order of "
+           "the parts and of their members is storage order by design (is_part_list_order_refuted) and is not compared"]
+ASSUMPTIONS = ["relabellings are injective maps to positive integers (is_one_euclidean: permutations of 1..m; the "
+               "single-crossing near-miss generator also uses the id 0, as the C04 campaign does)",
+               "theorems about mirrors assume the owners' well-formedness of the profile (duplicate-free alternatives, "
+               "every order a permutation of them, at least one order; for sc_algo / eucl_algo also distinct orders)",
                "twins hold the same multiset of ballots over the same alternatives; instance.orders lists the keys "
                "of instance.multiplicity (C02 invariant), categorical ballots are entries of instance.preferences"]
 TIMEOUT_S = 120.0       # CBC runs with threads = -1 (set by /repo) in up to 16 workers: a loaded machine needs the margin
@@ -59,9 +71,11 @@ THEOREMS_FOR_OP = {
                "min_partition_relabel/_profile_perm, *_winner_relabel, winner_sets_relabel, *_regroup, "
                "pairwise/copeland/borda_scores_relabel, table_entry_relabel, has_condorcet_relabel/_regroup, "
                "*_check_axis_relabel, sc_witness_check_relabel, spt_check_relabel, cert_*_relabel, partition_check_relabel",
-    "c15.app": "Properties/C15.v: approval_deciders_relabel/_reorder/_alts_perm, de_decide_reorder, approval_checks_relabel",
+    "c15.app": "Properties/C15.v: approval_deciders_relabel/_reorder/_alts_perm, de_decide_reorder, approval_checks_relabel, "
+               "is_part_relabel, is_2_part_relabel, is_part_reorder",
     "c15.mat": "Properties/C15.v: c1p_decide_rows_perm, c1p_decide_cols_perm",
-    "c15.eucl": "Properties/C15.v: Euclidean_perm, Euclidean_relabel_iff, eucl_check_relabel",
+    "c15.eucl": "Properties/C15.v: Euclidean_perm, Euclidean_relabel_inj, eucl_decide_perm/_relabel, eucl_algo_verdict_perm/"
+                "_relabel, eucl_algo_exact_verdict_perm, eucl_check_relabel",
 }
 
 DT = ["soc", "soi", "toc", "toi"]
@@ -525,6 +539,18 @@ def judge(c, r, mres):
                             val=lambda z: z[1][0])
                 if bad:
                     return bad
+            # is_part / is_2_part: the partition is determined as a SET OF SETS (is_part_relabel, is_part_reorder);
+            # the order of the parts and of their members follows the storage order (is_part_list_order_refuted)
+            f = variants_app(c["payload"])[j][2]
+            for dom in ("part", "part2"):
+                x, y = base[dom], r[j][dom]
+                if _okv(x) and _okv(y) and x[1][0] == 1 and y[1][0] == 1:
+                    img = sorted(sorted(f[a] for a in s_) for s_ in x[1][1])
+                    got = sorted(sorted(s_) for s_ in y[1][1])
+                    if img != got:
+                        return _mm("is_part_relabel / is_part_reorder",
+                                   "is_%s: the partition returned on twin %d, %r, is not (as a set of sets) the image "
+                                   "%r of the base's partition" % (dom, j, got, img))
         for (j, key), ok_ in wit:
             if ok_ != 1:
                 return _mm(key + "_check", "%s: the witness returned on variant %d (0 = base) is rejected by the "
